@@ -10,7 +10,7 @@ Import ListNotations.
 Inductive rule :=
 | RejValue (n : name) (v : val)    (* option n exists and its current value == v *)
 | RejUpdated (n : name)            (* n is in the updated set *)
-| RejCall (k : N).                 (* this is the listener's k-th call (from 0) *)
+| RejCall (k : N).                 (* this is the k-th call of this listener (from 0) *)
 
 Fixpoint count_calls (l : N) (lg : list event) : N :=
   match lg with
